@@ -10,13 +10,20 @@ package main
 //          each followed by an "echo" on the same connection.
 
 import (
+	"context"
 	"encoding/json"
 	"fmt"
+	"github.com/ovn-org/libovsdb/cache"
+	"github.com/ovn-org/libovsdb/client"
+	"github.com/ovn-org/libovsdb/model"
+	"io"
+	"net"
 	"os"
 	"os/exec"
 	"path/filepath"
 	"runtime/debug"
 	"strings"
+	"sync"
 	"time"
 
 	"github.com/ovn-org/libovsdb/ovsdb"
@@ -30,10 +37,10 @@ import (
 func init() { drivers["C19"] = driveC19 }
 
 type decTarget struct {
-	name    string
-	coq     string // constructor of Corr.C19.target ("" = implementation only)
-	valid   func(w *wgen) interface{}
-	decode  func(b []byte) (interface{}, error) // returns the decoded value in comparable form
+	name   string
+	coq    string // constructor of Corr.C19.target ("" = implementation only)
+	valid  func(w *wgen) interface{}
+	decode func(b []byte) (interface{}, error) // returns the decoded value in comparable form
 }
 
 func tripleOut(col, fn string, v interface{}) interface{} {
@@ -94,15 +101,31 @@ func decTargets() []decTarget {
 			}},
 		// implementation only (struct-tag decoding of encoding/json around the modelled decoders)
 		{"operation", "", func(w *wgen) interface{} { return tree(w.operation()) },
-			func(b []byte) (interface{}, error) { var x ovsdb.Operation; err := json.Unmarshal(b, &x); return nil, err }},
+			func(b []byte) (interface{}, error) {
+				var x ovsdb.Operation
+				err := json.Unmarshal(b, &x)
+				return nil, err
+			}},
 		{"operations", "", func(w *wgen) interface{} {
 			return tree([]ovsdb.Operation{w.operation(), w.operation()})
 		},
-			func(b []byte) (interface{}, error) { var x []ovsdb.Operation; err := json.Unmarshal(b, &x); return nil, err }},
+			func(b []byte) (interface{}, error) {
+				var x []ovsdb.Operation
+				err := json.Unmarshal(b, &x)
+				return nil, err
+			}},
 		{"tableupdates", "", func(w *wgen) interface{} { return tree(w.rowUpdates()) },
-			func(b []byte) (interface{}, error) { var x ovsdb.TableUpdates; err := json.Unmarshal(b, &x); return nil, err }},
+			func(b []byte) (interface{}, error) {
+				var x ovsdb.TableUpdates
+				err := json.Unmarshal(b, &x)
+				return nil, err
+			}},
 		{"tableupdates2", "", func(w *wgen) interface{} { return tree(w.rowUpdates2()) },
-			func(b []byte) (interface{}, error) { var x ovsdb.TableUpdates2; err := json.Unmarshal(b, &x); return nil, err }},
+			func(b []byte) (interface{}, error) {
+				var x ovsdb.TableUpdates2
+				err := json.Unmarshal(b, &x)
+				return nil, err
+			}},
 		{"monitor_cond_since_reply", "", func(w *wgen) interface{} {
 			return tree(ovsdb.MonitorCondSinceReply{Found: w.g.Chance(0.5), LastTransactionID: gen.UUIDn(2), Updates: w.rowUpdates2()})
 		},
@@ -121,9 +144,17 @@ func decTargets() []decTarget {
 				return nil, err
 			}},
 		{"result", "", func(w *wgen) interface{} { return tree(w.result()) },
-			func(b []byte) (interface{}, error) { var x ovsdb.OperationResult; err := json.Unmarshal(b, &x); return nil, err }},
+			func(b []byte) (interface{}, error) {
+				var x ovsdb.OperationResult
+				err := json.Unmarshal(b, &x)
+				return nil, err
+			}},
 		{"monitor_request", "", func(w *wgen) interface{} { return tree(w.monitorRequest()) },
-			func(b []byte) (interface{}, error) { var x ovsdb.MonitorRequest; err := json.Unmarshal(b, &x); return nil, err }},
+			func(b []byte) (interface{}, error) {
+				var x ovsdb.MonitorRequest
+				err := json.Unmarshal(b, &x)
+				return nil, err
+			}},
 	}
 }
 
@@ -432,6 +463,40 @@ func driveC19(o opts) error {
 		stillServes("transact-special", inProcess)
 	}
 
+	// ---- a schema whose index has no column (or an unknown one): rejected, or harmless once accepted
+	for _, idx := range []string{`[[]]`, `[null]`, `[["nope"]]`, `[["name"],[]]`} {
+		text := `{"name":"db","version":"1.0.0","tables":{"T":{"columns":{"name":{"type":"string"}},"indexes":` + idx + `}}}`
+		note("schema with a degenerate index", text)
+		_, class, msg := guarded(func() (interface{}, error) {
+			var schema ovsdb.DatabaseSchema
+			if err := json.Unmarshal([]byte(text), &schema); err != nil {
+				return nil, nil // rejected
+			}
+			type row struct {
+				UUID string `ovsdb:"_uuid"`
+				Name string `ovsdb:"name"`
+			}
+			cdm, err := model.NewClientDBModel("db", map[string]model.Model{"T": &row{}})
+			if err != nil {
+				return nil, nil
+			}
+			dbm, errs := model.NewDatabaseModel(schema, cdm)
+			if len(errs) > 0 {
+				return nil, nil
+			}
+			tc, err := cache.NewTableCache(dbm, nil, nil)
+			if err != nil {
+				return nil, nil
+			}
+			_ = tc.Table("T").Create("00000000-0000-4000-8000-000000000001", &row{UUID: "00000000-0000-4000-8000-000000000001", Name: "a"}, true)
+			_ = tc.Table("T").Create("00000000-0000-4000-8000-000000000002", &row{UUID: "00000000-0000-4000-8000-000000000002", Name: "b"}, true)
+			return nil, nil
+		})
+		if class == 2 {
+			goFail("schema", "a schema with \"indexes\": "+idx+" is accepted and the first row panics: "+msg, text)
+		}
+	}
+
 	// ---- part C: raw JSON-RPC to a real server, in a child process (a panic in a
 	// connection goroutine of the server takes the whole process down)
 	{
@@ -446,7 +511,7 @@ func driveC19(o opts) error {
 			if cb, rerr := os.ReadFile(filepath.Join(o.out, "current_input_srv.json")); rerr == nil {
 				_ = json.Unmarshal(cb, &cur)
 			}
-			goFail("server", "the server process died while handling a transact request: "+trimStack(string(outb)), cur)
+			goFail("server", fmt.Sprintf("the process died at stage %q (input in the replay): ", cur["stage"])+trimStack(string(outb)), cur)
 		} else if rb, rerr := os.ReadFile(filepath.Join(o.out, "c19srv.json")); rerr == nil && json.Unmarshal(rb, &rep) == nil {
 			w.Dist["server:answered+echo"] += rep.Answered
 			for _, f := range rep.Fails {
@@ -528,6 +593,66 @@ func driveC19srv(o opts) error {
 			goFail("server", "no answer to echo after the transact request", opsTree)
 		}
 	}
+	// requests other than transact with too few parameters, and messages that are neither request nor response
+	rawCall := func(method string, params []interface{}) {
+		note("server "+method, params)
+		var reply interface{}
+		done := make(chan error, 1)
+		go func() { done <- p.c.Call(method, params, &reply) }()
+		select {
+		case <-done:
+		case <-time.After(5 * time.Second):
+			goFail("server", "no answer to the "+method+" request within 5s", params)
+			wedged = true
+			return
+		}
+		var echo interface{}
+		go func() { done <- p.c.Call("echo", []interface{}{"ping"}, &echo) }()
+		select {
+		case err := <-done:
+			if err != nil {
+				goFail("server", "echo after the "+method+" request fails: "+err.Error(), params)
+			} else {
+				answered++
+			}
+		case <-time.After(5 * time.Second):
+			goFail("server", "no answer to echo after the "+method+" request", params)
+		}
+	}
+	for _, m := range []string{"get_schema", "monitor", "monitor_cond", "monitor_cond_since", "list_dbs", "monitor_cancel", "lock", "echo"} {
+		for k := 0; k < 3 && !wedged; k++ {
+			rawCall(m, []interface{}{sc.Name, "cookie"}[:k])
+		}
+	}
+	for _, raw := range []string{`{}`, `{"method":"","params":[]}`, `{"result":[],"error":null}`, `{"id":null}`, `[]`, `null`} {
+		if wedged {
+			break
+		}
+		note("server raw message", raw)
+		if conn, err := net.Dial("unix", slab.sock); err == nil {
+			_, _ = conn.Write([]byte(raw))
+			time.Sleep(50 * time.Millisecond)
+			conn.Close()
+		}
+		rawCall("echo", []interface{}{"after " + raw})
+	}
+	// a well-typed where clause with many equality conditions is answered in reasonable time
+	{
+		t0 := *sc.Table("R")
+		var where []interface{}
+		for i := 0; i < 24; i++ {
+			c := t0.Cols[i%2]
+			cond := toOvsConds(t0.Cols, []Cond{{Col: c.Name, Fn: "==", Arg: g.Value(c, 3, 3)}})
+			if tree, err := toTree(cond[0]); err == nil {
+				where = append(where, tree)
+			}
+		}
+		rawTransact([]interface{}{map[string]interface{}{"op": "select", "table": t0.Name, "where": where}})
+	}
+	// client side: notifications with too few parameters, injected into the byte stream a libovsdb client reads
+	if err := c19ClientNotifications(slab, o.out, note, goFail); err != nil {
+		return err
+	}
 	for i := 0; i < nSrv && !wedged; i++ {
 		if i%2 == 0 {
 			rawTransact(special[g.Intn(len(special))])
@@ -561,4 +686,96 @@ func c19OpsTree(lab *txnLab, tg *txnGen, wg *wgen) []interface{} {
 		return l
 	}
 	return []interface{}{tree}
+}
+
+// c19ClientNotifications puts a libovsdb client behind a byte-copying relay and writes malformed notifications into
+// the stream it reads while the session is idle; the client must answer an echo afterwards (a panic in its read loop
+// takes the process down, which the parent reports with the noted input).
+func c19ClientNotifications(slab *srvLab, dir string, note func(string, interface{}), goFail func(string, string, interface{})) error {
+	relaySock := filepath.Join(dir, fmt.Sprintf("relay%d.sock", os.Getpid()))
+	os.Remove(relaySock)
+	ln, err := net.Listen("unix", relaySock)
+	if err != nil {
+		return err
+	}
+	defer ln.Close()
+	defer os.Remove(relaySock)
+	var mu sync.Mutex
+	var toClient net.Conn
+	go func() {
+		for {
+			cc, err := ln.Accept()
+			if err != nil {
+				return
+			}
+			sc, err := net.Dial("unix", slab.sock)
+			if err != nil {
+				cc.Close()
+				continue
+			}
+			mu.Lock()
+			toClient = cc
+			mu.Unlock()
+			go func() { _, _ = io.Copy(sc, cc); sc.Close() }()
+			go func() {
+				buf := make([]byte, 65536)
+				for {
+					n, err := sc.Read(buf)
+					if n > 0 {
+						mu.Lock()
+						_, _ = cc.Write(buf[:n])
+						mu.Unlock()
+					}
+					if err != nil {
+						cc.Close()
+						return
+					}
+				}
+			}()
+		}
+	}()
+	cli, err := client.NewOVSDBClient(slab.db.Client, client.WithEndpoint("unix:"+relaySock))
+	if err != nil {
+		return err
+	}
+	ctx, cancel := context.WithTimeout(context.Background(), 10*time.Second)
+	defer cancel()
+	if err := cli.Connect(ctx); err != nil {
+		return fmt.Errorf("c19 client: connect: %v", err)
+	}
+	defer cli.Close()
+	if _, err := cli.MonitorAll(ctx); err != nil {
+		return fmt.Errorf("c19 client: monitor: %v", err)
+	}
+	for _, m := range []string{"update", "update2", "update3"} {
+		for _, params := range []string{`[]`, `["x"]`, `[null]`, `[{"databaseName":"` + slab.name + `","id":"x"},{"T":{"00000000-0000-4000-8000-00000000aaaa":null}}]`} {
+			raw := `{"method":"` + m + `","params":` + params + `,"id":null}`
+			note("client notification", raw)
+			time.Sleep(20 * time.Millisecond)
+			mu.Lock()
+			if toClient != nil {
+				_, _ = toClient.Write([]byte(raw))
+			}
+			mu.Unlock()
+			time.Sleep(30 * time.Millisecond)
+			ectx, ecancel := context.WithTimeout(context.Background(), 5*time.Second)
+			err := cli.Echo(ectx)
+			ecancel()
+			if err != nil && !cli.Connected() {
+				// the client may drop the session on a malformed message; it must be able to come back
+				rctx, rcancel := context.WithTimeout(context.Background(), 5*time.Second)
+				rerr := cli.Connect(rctx)
+				rcancel()
+				if rerr != nil {
+					goFail("client", "after the notification "+raw+" the client neither answers nor reconnects: "+rerr.Error(), raw)
+					return nil
+				}
+				if _, err := cli.MonitorAll(ctx); err != nil {
+					goFail("client", "after the notification "+raw+" the client cannot monitor again: "+err.Error(), raw)
+					return nil
+				}
+			}
+		}
+	}
+	return nil
 }
